@@ -879,6 +879,14 @@ def store7(ctx) -> List[Ob]:
         cfg = ctx.cfg(fn)
         loops = _rename_loops(fn.node)
         if not loops:
+            if fn.name in ("update_exiting", "extract_region") and fn.parent_fn is None:
+                # the two places that rename a header to its region must rename every occurrence
+                single = [a_ for a_ in A.walk_no_nested(fn.node) if isinstance(a_, ast.Assign) and len(a_.targets) == 1 and isinstance(a_.targets[0], ast.Subscript)
+                          and isinstance(a_.targets[0].slice, ast.Call) and isinstance(a_.targets[0].slice.func, ast.Attribute) and a_.targets[0].slice.func.attr == "index"]
+                if single:
+                    out.append(bad("STORE-7", fn.qualname, "rename reaches every position", ctx.where(fn, single[0]), f"{A.unparse(single[0])[:60]} renames the first occurrence only: a block with two arcs to the renamed header keeps the old name in the other position, the region and its exiting block disagree"))
+                else:
+                    out.append(unresolved("STORE-7", fn.qualname, "rename reaches every position", ctx.where(fn), f"{fn.name} no longer renames a target position by position: cannot see that every occurrence is renamed"))
             continue
         # origin of each renamed list
         origin = {}
@@ -1368,8 +1376,39 @@ def store11(ctx) -> List[Ob]:
     why = []
     for r in rets:
         why += order_provenance(ctx, jt, r.value)
-    loops = [n for n in A.walk_no_nested(jt.node) if isinstance(n, (ast.For, ast.comprehension))]
+    from .common import expanded_function as _xf11
+
+    jtx = _xf11(jt)  # locals that merely name self.backedges / self._jump_targets are read through
+    A.set_parents(jtx)
+    loops = [n for n in A.walk_no_nested(jtx) if isinstance(n, (ast.For, ast.comprehension))]
     src_ok = any(A.unparse(n.iter) == "self._jump_targets" for n in loops)
+    # what the view drops: exactly the declared back edges
+    conds = []
+    for n in loops:
+        if A.unparse(n.iter) != "self._jump_targets":
+            continue
+        v_ = A.unparse(n.target)
+        if isinstance(n, ast.comprehension):
+            conds += [(v_, c_) for c_ in n.ifs]
+        else:
+            from .ctrl import _guard_conditions as _gc11
+
+            for c_ in method_calls(n, "append"):
+                for t_, p_ in _gc11(n, c_):
+                    te_ = ast.parse(t_, mode="eval").body
+                    for cj in (te_.values if isinstance(te_, ast.BoolOp) and isinstance(te_.op, ast.And) and p_ else [te_ if p_ else ast.UnaryOp(op=ast.Not(), operand=te_)]):
+                        conds.append((v_, cj))
+    flat = []
+    for v_, c_ in conds:
+        for cj in (c_.values if isinstance(c_, ast.BoolOp) and isinstance(c_.op, ast.And) else [c_]):
+            flat.append(A.cond_key(A.unparse(cj), True).replace(v_, "x") if False else (v_, A.unparse(cj)))
+    extra = [t_ for v_, t_ in flat if t_ not in (f"{v_} not in self.backedges", f"not {v_} in self.backedges")]
+    if src_ok and extra and not why:
+        out.append(bad("STORE-11", jt.qualname, key, ctx.where(jt), f"the jump_targets view also drops successors under '{extra[0][:50]}': a block with two arcs to one target (or whatever else the test excludes) shows fewer successors than it stores, and code that copies the view back as the full tuple loses an arc"))
+        return out
+    if src_ok and not flat and not why:
+        out.append(bad("STORE-11", jt.qualname, key, ctx.where(jt), "the jump_targets view does not drop the declared back edges"))
+        return out
     if why or not src_ok:
         out.append(bad("STORE-11", jt.qualname, key, ctx.where(jt), f"the jump_targets view does not present the stored successors in their stored order ({(why or ['does not iterate self._jump_targets'])[0]})"))
     else:
@@ -1748,4 +1787,37 @@ def store16(ctx) -> List[Ob]:
             out.append(bad("STORE-16", fn.qualname, key, where, f"the guard on the latch's successors does not exclude every successor that is in {L} and not in {H}"))
         else:
             out.append(bad("STORE-16", fn.qualname, key, where, f"{A.unparse(c)[:60]} is reached without a test that the latch has no other successor inside {L}: a three-way latch (exit, header, inner block or itself) keeps an inner cycle; restructuring that cycle copies the latch's filtered successors back as the full tuple, the declared arc is lost (or declare_backedge asserts on the second declaration)"))
+    return out
+
+
+# ------------------------------------------------------------------ STORE-17
+
+
+@rule("STORE-17", 2, "the stage drivers hand every region to the transformation as the block that is stored in the hierarchy (the top-level region, then each block yielded by iter_subregions): they do not recurse through a sub-graph's own back pointer, which goes stale whenever an edit re-creates the (frozen) region block")
+def store17(ctx) -> List[Ob]:
+    out: List[Ob] = []
+    scfg = ctx.prog.cls("SCFG")
+    for mname in ("restructure_loop", "restructure_branch"):
+        m = scfg.find_method(mname)
+        if m is None:
+            raise AnalysisError(f"SCFG.{mname} not found")
+        key = f"{mname}: regions come from the hierarchy walk"
+        where = ctx.where(m)
+        calls = [c for c in A.walk_no_nested(m.node) if isinstance(c, ast.Call) and isinstance(c.func, ast.Name) and c.func.id == mname and len(c.args) == 1]
+        rec = [c for c in A.walk_no_nested(m.node) if isinstance(c, ast.Call) and isinstance(c.func, ast.Attribute) and c.func.attr in ("restructure_loop", "restructure_branch", "restructure") and A.unparse(c.func.value) != "self"]
+        if rec:
+            out.append(bad("STORE-17", m.qualname, key, ctx.where(m, rec[0]), f"{A.unparse(rec[0])[:60]} lets a sub-graph restructure itself: it starts from the sub-graph's own `region` back pointer, which still names the old object after insert_block / insert_block_and_control_blocks re-created the region block - header and exiting replacements are then written to a copy that is not in the hierarchy"))
+            continue
+        top = [c for c in calls if A.unparse(c.args[0]) == "self.region"]
+        walk = []
+        for lp in [n for n in A.walk_no_nested(m.node) if isinstance(n, ast.For)]:
+            if isinstance(lp.iter, ast.Call) and isinstance(lp.iter.func, ast.Attribute) and lp.iter.func.attr == "iter_subregions" and A.unparse(lp.iter.func.value) == "self":
+                walk += [c for c in calls if any(c is x for x in ast.walk(lp)) and A.unparse(c.args[0]) == A.unparse(lp.target)]
+        other = [c for c in calls if c not in top and c not in walk]
+        if top and walk and not other:
+            out.append(ok("STORE-17", m.qualname, key, where, f"{mname}(self.region), then {mname}(region) for region in self.iter_subregions()"))
+        elif other:
+            out.append(bad("STORE-17", m.qualname, key, ctx.where(m, other[0]), f"{A.unparse(other[0])[:60]}: the region handed to the transformation is neither the top-level region nor a block yielded by iter_subregions"))
+        else:
+            out.append(unresolved("STORE-17", m.qualname, key, where, "the stage driver is not written as 'top-level region, then every region of iter_subregions()'"))
     return out
